@@ -208,6 +208,13 @@ static void matrix_case(rng_t *r) {
                 entry = "varintDimensionPairEntrySetBit";
                 g_ctx = entry;
                 expect[byte] = (uint8_t)((expect[byte] & ~(1u << bit)) | ((unsigned)v << bit));
+                if (v && rng_chance(r, 1, 2)) {
+                    /* the usual C idiom: a truth value that is not 1 (flags & mask) */
+                    static const unsigned truthy[] = {2, 4, 8, 0x10, 0x40, 0x80, 0x100, 0x8000, 0x10000, 0x80000000u, 3, 0xfe, 0xffffff00u};
+                    unsigned word = truthy[rng_below(r, sizeof truthy / sizeof truthy[0])];
+                    varintDimensionPairEntrySetBit(gb.p, row, col, word & ~0u, d);
+                    STAT_INC("c10_set_bit_with_truth_value_other_than_1");
+                } else
                 varintDimensionPairEntrySetBit(gb.p, row, col, v, d);
                 readback_ok = varintDimensionPairEntryGetBit(gb.p, row, col, d) == v;
                 if (old && !v) STAT_INC("c10_bit_cleared_by_set_false");
